@@ -501,6 +501,33 @@ def run_item(item, ctx, tmp, only=None):
     ctx.states += 1
     uni = 'unicode' in item['obj']
     cls = ',unicode' if uni else ''
+    # several objects written one after the other through ONE open handle (pickle streams): they are read back
+    # one after the other, each load continuing where the previous one stopped
+    step = ['pkl', 'handle', 'two-objects-one-stream', False]
+    if only is None or only == step:
+        case = {'item': item, 'step': step}
+        sig = 'save-load|%s,pkl%s,two-objects-one-stream' % (kind, cls)
+        ctx.case(case)
+        ctx.transitions += 1
+        n[0] += 1
+        path = os.path.join(tmp, 'f%d.pkl' % n[0])
+        with ctx.guard(sig, case), np.errstate(all='ignore'):
+            first = _other(kind, ctx.seed)
+            for container in ('file', 'bytesio'):
+                fh = open(path, 'w+b') if container == 'file' else io.BytesIO()
+                try:
+                    save(kind, first, fh, 'pkl', False)
+                    save(kind, make(), fh, 'pkl', False)
+                    fh.seek(0)
+                    back1 = load(kind, fh, 'pkl')
+                    back2 = load(kind, fh, 'pkl')
+                finally:
+                    fh.close()
+                for k, msg in diff(kind, first, back1):
+                    ctx.fail('%s,first|%s' % (sig, k), case, msg)
+                for k, msg in diff(kind, ref, back2):
+                    ctx.fail('%s,second|%s' % (sig, k), case, msg)
+            ctx.outcome((item['obj'], 'two-objects-one-stream'))
     for file_type in ('hdf5', 'pkl'):
         ext = '.hdf5' if file_type == 'hdf5' else '.pkl'
         exts = {'hdf5': ['.hdf5', '.h5'], 'pkl': ['.pkl']}[file_type]
